@@ -123,6 +123,36 @@ func (w *world) pool(g *group, seed int64) []pitem {
 			}
 		}
 	}
+	// F_p2 (BLS12-381 G2): points of the twist outside the prime subgroup, found with the library's own
+	// F_p2 square root (only used to BUILD inputs; every pool point is validated by the reference)
+	if g.kind == 'w' && g.comps == 2 {
+		if fd, ok := w.fields["g2.p2"]; ok && fd.sqrt != nil {
+			tryX := func(x fe, tag string) {
+				rhs := c.f.add(c.f.add(c.f.mul(c.f.mul(x, x), x), c.f.mul(c.a, x)), c.b)
+				v, err := fd.parse(c.f.text(rhs))
+				if err != nil {
+					return
+				}
+				y, ok := fd.sqrt(v)
+				if !ok {
+					return
+				}
+				ry, err := c.f.parse(fd.text(y))
+				if err != nil {
+					return
+				}
+				pt := rpt{x: x, y: ry}
+				if c.onCurve(pt) {
+					add(pt, false, tag)
+					add(c.add(pt, G), false, tag+" + G")
+				}
+			}
+			tryX(c.f.zero(), "x=0")
+			for i := 0; i < 6 && len(items) < 14; i++ {
+				tryX(randFe(c.f, r), "random curve point")
+			}
+		}
+	}
 	// small-order points: T = n*R has order dividing the cofactor
 	if (g.kind == 'e' || g.kind == 'm') && !g.prime {
 		for try := 0; try < 64; try++ {
